@@ -275,6 +275,44 @@ def canon_result(r):
         return 'error\t' + t[7:]
     return 'reply\t' + t
 
+def canon_one(t):
+    m = AMBIG.match(t)
+    if m:
+        names = re.split(r', and | and |, ', m.group(2))
+        return 'ambiguous\t%s\t%s' % (m.group(1), ','.join(sorted(names)))
+    if INVALID1.match(t) or INVALID2.match(t):
+        return 'invalid'
+    if t == 'Error: ' + ERR_NEST:
+        return 'tooDeep'
+    if t.startswith('Error: '):
+        return 'error\t' + t[7:]
+    return 'reply\t' + t
+
+def canon_msgs(r):
+    """every message the evaluation sent, in order"""
+    if r['crash']:
+        return 'crash\t' + r['crash']
+    return ' || '.join(canon_one(m[2]) for m in r['msgs']) or 'nomsg'
+
+def canon_machine(field):
+    """the machine's output list in the same form"""
+    if field == '-':
+        return 'nomsg'
+    out = []
+    for item in field.split(','):
+        k, t = item[0], wire.dec(item[1:])
+        if k == 'e':
+            if t.startswith('AMBIGUOUS '):
+                cmd, names = t[10:].split(' : ')
+                out.append('ambiguous\t%s\t%s' % (cmd, ','.join(sorted(names.split(',')))))
+            else:
+                out.append(canon_one('Error: ' + t))
+        elif not t:
+            out.append('error\tI tried to send you an empty message.')
+        else:
+            out.append('reply\t' + t)
+    return ' || '.join(out)
+
 def canon_model(o):
     """model outcome -> the same observable form"""
     f = o.split('\t')
@@ -319,6 +357,12 @@ def in_enable_class(history, since, c, cn):
         if w[0] == 'enable' and len(w) == 2 and cn(w[1]) == c and rep == 'err':
             return True
     return False
+
+FINDING_EXTRA = 'C14-extra-reply-resumes-enclosing'
+EXTRA_LETTERS = 'dmktf'
+def in_extra_reply_class(res):
+    """known-finding class: a command body that ran uses its irc again after a reply / an error"""
+    return any(p in SYN and c[-1][:1] in EXTRA_LETTERS for (p, c, a) in res['calls'])
 
 def canon_store(ents, confset):
     return '%s # %s' % (';'.join('%s=%d/%s' % (k, ev, '+'.join(v)) for k, ev, v in ents) or '-', ','.join(confset) or '-')
@@ -621,7 +665,7 @@ def explore(live, r, n_worlds, per_world, corpus=()):
         for l in live.world_lines(w):
             lines.append(l); pend.append((None, None))
         winfo = dict(w)
-        def add_eval(tokens, kind, check_full=False, ignored0=False):
+        def add_eval(tokens, kind, check_full=False, ignored0=False, machine_only=False):
             res = live.run(tokens, private=False, ignored0=ignored0)
             if ignored0:
                 lines.append(live.cfg_line(w, True)); pend.append((None, None))
@@ -634,8 +678,9 @@ def explore(live, r, n_worlds, per_world, corpus=()):
             tags = ['eval', canon_result(res).split('\t')[0], 'calls%d' % min(len(res['calls']), 4)]
             if any(isinstance(x, list) for x in tokens): tags.append('nested')
             if res['calls'] and any(c[0] == 'VtOrderC' for c in res['calls']): tags.append('threaded')
+            fnd = FINDING_EXTRA if (not ok and in_extra_reply_class(res)) else None
             c = Case(dict(op='eval', tokens=tokens, world=winfo, _calls=[list(x) for x in res['calls']] if kind == 'dseq' else None), impl=impl, oracle_ok=ok,
-                     oracle_msg=('' if ok else 'tokens %r under %r: %s' % (tokens, winfo, msg)), kind=kind, tags=tags)
+                     oracle_msg=('' if ok else 'tokens %r under %r: %s' % (tokens, winfo, msg)), kind=kind, tags=tags, finding=fnd)
             def post(o, c=c):
                 f = o.split('\t@\t')
                 if len(f) != 2:
@@ -643,7 +688,25 @@ def explore(live, r, n_worlds, per_world, corpus=()):
                 log, ig = f[1].split('\t')
                 mc, paths = model_calls(log)
                 return cut_foreign(canon_model(f[0]), mc, ig)
-            add(c, 'eval\t' + enc_tree(tokens), post)
+            if not machine_only:
+                add(c, 'eval\t' + enc_tree(tokens), post)
+            else:
+                c.impl = None; cases.append(c)
+            # the same on the small-step machine (every message sent, in order)
+            mimpl = cut_foreign(canon_msgs(res), res['calls'], '%d' % res['ignored'])
+            mc = Case(dict(op='meval', tokens=tokens, world=winfo), impl=mimpl, kind=kind + '-m', tags=('meval',) + (('multi-msg',) if len(res['msgs']) > 1 else ()))
+            def mpost(o):
+                f = o.split('\t@\t')
+                if len(f) != 2:
+                    return o
+                log, ig, fin = f[1].split('\t')
+                mcalls, _ = model_calls(log)
+                return cut_foreign(canon_machine(f[0]), mcalls, ig) + ('' if fin == 'done' else '\tFUEL')
+            if machine_only and any(c_[0] == 'VtOrderC' for c_ in res['calls']):
+                # a body that uses irc several times next to a threaded sub-command: the two threads race for the
+                # enclosing proxy; which interleaving the real threads take is not the harness's to fix — not compared
+                mc.impl = None; mc.tags = mc.tags + ('racy-not-compared',)
+            add(mc, 'meval\t' + enc_tree(tokens), mpost)
             if ignored0:
                 lines.append(live.cfg_line(w, False)); pend.append((None, None))
         def add_feed(tokens):
@@ -678,6 +741,20 @@ def explore(live, r, n_worlds, per_world, corpus=()):
             add_eval(gen_mixed(r, r.randint(0, 4)), 'mixed')
         for _ in range(per_world.get('feed', 0)):
             add_feed(gen_full(r, r.randint(0, 3)) if r.random() < 0.6 else gen_mixed(r, r.randint(0, 3)))
+        for _ in range(per_world.get('multi', 0)):
+            # command bodies that use irc more than once (reply twice, replies(), reply then error / noReply,
+            # error then reply, replySuccess, queueMsg then reply, reply then raise): only the machine models these
+            g = TreeGen(r)
+            def pickm():
+                x = r.random()
+                if x < 0.45:
+                    return r.choice([['duni'], ['muni'], ['cuni'], ['puni'], ['kuni'], ['uuni'], ['guni'], ['funi'], ['tuni'],
+                                     ['vtorderb', 'dbee'], ['kbee'], ['vtorderb', 'pbee'], ['vtordera', 'duni']])
+                if x < 0.8:
+                    return r.choice([['rtwo'], ['vtorderb', 'rbee'], ['vtordera', 'nuni'], ['suni'], ['euni'], ['iuni'], ['juni'], ['xuni'],
+                                     ['zuni'], ['ouni'], ['vtordera', 'grp', 'rga'], ['nosuch'], ['rone'], ['ainvr'], ['binvn']])
+                return [r.choice(BARE)]
+            add_eval(g.node(r.randint(0, 4), pickm), 'multi', machine_only=True)
         for _ in range(per_world.get('ign', 0)):
             # the message already carries the `ignored` tag (left by an earlier evaluation of the same message)
             add_eval(gen_mixed(r, r.randint(1, 3)), 'ign', ignored0=True)
@@ -843,6 +920,12 @@ def finding_status(live):
     st = {}
     for f in verdict.load_findings(PROPERTY):
         w = f.get('witness', {})
+        if 'tokens' in w:
+            live.set_world(gen_world(None, 0))
+            res = live.run(w['tokens'])
+            ok, msg = oracle_order(w['tokens'], res, gen_world(None, 0))
+            st[f['id']] = (not ok, 'tokens %r: %s; calls %s; messages %s' % (w['tokens'], msg, canon_calls(res['calls']), canon_msgs(res)))
+            continue
         if 'owner_commands' not in w:
             continue
         live.set_world(gen_world(None, 0))
@@ -859,7 +942,7 @@ def load_corpus():
     except OSError:
         return []
 
-QUICK = dict(full=30, mixed=60, deep=10, feed=12, ign=6, disp=80, canon=10, dseq=8)
+QUICK = dict(full=30, mixed=60, multi=40, deep=10, feed=12, ign=6, disp=80, canon=10, dseq=8)
 
 def run(ctx):
     build = leanbuild.ensure(PROPERTY, THEOREMS, thorough=ctx.thorough, extractors=['CanonicalName'])
@@ -872,7 +955,7 @@ def run(ctx):
         import random
         rr = random.Random('%d/c14-search' % ctx.seed)
         seeds = [dict(tokens=d.input['tokens']) for d in disagreements[:50] if d.input.get('op') == 'eval']
-        more, _, _ = explore(live, rr, 30, dict(full=40, mixed=80, deep=10, feed=15, disp=80, dseq=12), seeds)
+        more, _, _ = explore(live, rr, 30, dict(full=40, mixed=80, multi=60, deep=10, feed=15, disp=80, dseq=12), seeds)
         return [c for c in more if c.oracle_ok is False]
     return verdict.conclude(PROPERTY, ctx.tier, ctx.seed, build, cases, search=search, rule=RULE, trusted_base=TRUSTED,
                             finding_status=finding_status(live),
